@@ -7,20 +7,36 @@ from pyvc import symalg as B
 F_CP = 'atsim/potentials/config/_config_parser.py'
 F_POT = 'atsim/potentials/tools/potable/__init__.py'
 F_Q = 'atsim/potentials/tools/potable/_query_actions.py'
-FUNCTIONS = []
+import contracts.overrides as OVc
+FUNCTIONS = [(F_CP, 'ConfigParser._init_config_parser')]
 
 def lemmas():
     out = []
     S = B.source_shape
-    # the edit fold over the INI view (A5): overrides/removals first (each requires presence), then additions (each requires absence)
-    out.append(S('C14', F_CP, 'ConfigParser._init_config_parser', 'override-requires-presence',
-                 ['for override in overrides:', 'if not cp.has_option(override.section, override.key):\n raise ConfigOverrideException']))
-    out.append(S('C14', F_CP, 'ConfigParser._init_config_parser', 'remove-deletes-and-drops-an-emptied-section',
-                 ['if override.value is None:', 'cp.remove_option(override.section, override.key)', 'if len(cp[override.section]) == 0:\n cp.remove_section(override.section)']))
-    out.append(S('C14', F_CP, 'ConfigParser._init_config_parser', 'override-replaces-in-place', ['else:\n cp[override.section][override.key] = override.value']))
-    out.append(S('C14', F_CP, 'ConfigParser._init_config_parser', 'add-requires-absence-and-creates-the-section-last',
-                 ['for override in additional:', 'if cp.has_option(override.section, override.key):\n raise ConfigOverrideDuplicateException',
-                  'if not cp.has_section(override.section):\n cp.add_section(override.section)', 'cp[override.section][override.key] = override.value', 'return cp']))
+    # the edit fold (overrides/removals first, each requiring presence; then additions, each requiring absence) is the Engine A contract of
+    # ConfigParser._init_config_parser (contracts/overrides.py); what one step does to the observable content of the file (A5 model of configparser):
+    import contracts.overrides as O
+    S0 = z3.Const('S', O.RCP); o = z3.Const('o', O.OV); s2, k2 = z3.Strings('s2 k2')
+    ax = O.model_axioms()
+    sec, key, val = O.o_sec(o), O.o_key(o), O.o_val(o)
+    def L(name, hyps, goal):
+        ob = Obligation('C14/lemma/' + name, ax + [O.wf(S0)] + hyps, goal, kind='lemma', function='props/C14.py', carries_property=True); out.append(ob)
+    other = z3.Not(z3.And(s2 == sec, k2 == O.nf(key)))
+    S1 = O.ov_step(S0, o)
+    L('override/sets-exactly-that-item', [O.present(S0, o), z3.Not(O.o_none(o))],
+      z3.And(O.opt_has(S1, sec, O.nf(key)), O.opt_val(S1, sec, O.nf(key)) == val,
+             z3.Implies(other, z3.And(O.opt_has(S1, s2, k2) == O.opt_has(S0, s2, k2), O.opt_val(S1, s2, k2) == O.opt_val(S0, s2, k2))), O.has_sec(S1, s2) == O.has_sec(S0, s2)))
+    L('remove/deletes-exactly-that-item', [O.present(S0, o), O.o_none(o)],
+      z3.And(z3.Not(O.opt_has(S1, sec, O.nf(key))), z3.Implies(other, O.opt_has(S1, s2, k2) == O.opt_has(S0, s2, k2)),
+             z3.Implies(z3.And(other, O.opt_has(S0, s2, k2)), O.opt_val(S1, s2, k2) == O.opt_val(S0, s2, k2))))
+    L('remove/drops-the-section-iff-that-was-its-last-item', [O.present(S0, o), O.o_none(o)],
+      z3.And(O.has_sec(S1, sec) == (O.n_opts(S0, sec) > 1), z3.Implies(s2 != sec, O.has_sec(S1, s2) == O.has_sec(S0, s2))))
+    S2 = O.add_step(S0, o)
+    L('add/creates-the-item-and-if-needed-its-section', [z3.Not(O.present(S0, o)), z3.Not(O.o_none(o))],
+      z3.And(O.opt_has(S2, sec, O.nf(key)), O.opt_val(S2, sec, O.nf(key)) == val, O.has_sec(S2, sec), O.wf(S2),
+             z3.Implies(other, z3.And(O.opt_has(S2, s2, k2) == O.opt_has(S0, s2, k2), O.opt_val(S2, s2, k2) == O.opt_val(S0, s2, k2))),
+             z3.Implies(s2 != sec, O.has_sec(S2, s2) == O.has_sec(S0, s2))))
+    L('steps-keep-the-parser-well-formed', [O.present(S0, o)], O.wf(S1))
     # keys match irrespective of embedded whitespace: membership (has_option), storage and strict-duplicate test use one normal form
     out.append(S('C14', F_CP, '_RawConfigParser.optionxform', 'one-normal-form', ["option = option.strip().replace(' ', '').replace('\\t', '')"]))
     out.append(S('C14', F_CP, '_RawConfigParser.has_option', 'membership-on-the-normal-form-of-own-keys',
@@ -43,19 +59,20 @@ def lemmas():
     from pyvc.exceptions import bases_of
     for cls in ('ConfigOverrideException', 'ConfigOverrideDuplicateException'):
         out.append(B.static_obligation('C14/_config_parser.py::%s/is-a-ConfigurationException' % cls, 'ConfigurationException' in bases_of(cls), cls, F_CP, str(bases_of(cls))))
-    # fold lemma (specification level): override then lookup gives the new value and leaves other keys alone; remove then lookup = absent
-    K = z3.DeclareSort('Key'); Vv = z3.StringSort()
-    has = z3.Const('has', z3.ArraySort(K, z3.BoolSort())); val = z3.Const('val', z3.ArraySort(K, Vv)); k1, k2 = z3.Consts('k1 k2', K); nv = z3.String('nv')
-    out.append(Obligation('C14/lemma/override-changes-exactly-that-key', [k1 != k2, z3.Select(has, k1)],
-                          z3.And(z3.Select(z3.Store(val, k1, nv), k1) == nv, z3.Select(z3.Store(val, k1, nv), k2) == z3.Select(val, k2)), kind='lemma', function='props/C14.py', carries_property=True))
-    out.append(Obligation('C14/lemma/remove-deletes-exactly-that-key', [k1 != k2],
-                          z3.And(z3.Not(z3.Select(z3.Store(has, k1, z3.BoolVal(False)), k1)), z3.Select(z3.Store(has, k1, z3.BoolVal(False)), k2) == z3.Select(has, k2)), kind='lemma', function='props/C14.py', carries_property=True))
     return out
 
+MUTANTS = [
+    (F_CP, 'ConfigParser._init_config_parser', "if len(cp[override.section]) == 0:", "if len(cp[override.section]) == 1:", 'preserve/0'),
+    (F_CP, 'ConfigParser._init_config_parser', "if override.value is None:", "if override.value is not None:", 'preserve/0'),
+    (F_CP, 'ConfigParser._init_config_parser', "if not cp.has_option(override.section, override.key):", "if False:", 'preserve/0'),
+    (F_CP, 'ConfigParser._init_config_parser', "if not cp.has_section(override.section):", "if cp.has_section(override.section):", 'call-pre'),
+    (F_CP, 'ConfigParser._init_config_parser', "cp[override.section][override.key] = override.value\n    return cp", "cp[override.section][override.value] = override.key\n    return cp", 'preserve/1'),
+    (F_CP, 'ConfigParser._init_config_parser', "raise ConfigParserException(e.message)", "raise ValueError(e.message)", 'raises'),
+]
 MODULE_MUTANTS = [
     (F_CP, "    option = option.strip().replace(' ', '').replace('\\t', '')\n", "    option = option.strip()\n", 'one-normal-form'),
-    (F_CP, "    for override in additional:\n      if cp.has_option(override.section, override.key):\n        raise ConfigOverrideDuplicateException(", "    for override in additional:\n      if False:\n        raise ConfigOverrideDuplicateException(", 'add-requires-absence'),
-    (F_CP, "        if len(cp[override.section]) == 0:\n          cp.remove_section(override.section)\n", "", 'remove-deletes'),
+    (F_CP, "    for override in additional:\n      if cp.has_option(override.section, override.key):\n        raise ConfigOverrideDuplicateException(", "    for override in additional:\n      if False:\n        raise ConfigOverrideDuplicateException(", '_init_config_parser/preserve/1'),
+    (F_CP, "        if len(cp[override.section]) == 0:\n          cp.remove_section(override.section)\n", "", '_init_config_parser/preserve/0'),
     (F_Q, "  for k,v in raw_cp.defaults().items():\n    items.append((\"{section}:{key}\".format(section = raw_cp.default_section, key = k), v))\n", "", 'every-section-once'),
 ]
 ENGINE_B_FUNCTIONS = [(F_CP, 'ConfigParser._init_config_parser'), (F_CP, '_RawConfigParser.optionxform'), (F_CP, '_RawConfigParser.has_option'), (F_CP, '_ConfigParserDict._key_transform'),
